@@ -32,8 +32,20 @@ Verdict(c) ==
        ELSE IF ~c.metasame THEN "marker-metadata-not-carried-over"
        ELSE "ok"
 
+\* one LARGE mate() call (hundreds of progeny x hundreds of loci), recorded as summaries: tags0 / tags1 = the distinct
+\* provenance tags seen in copy 0 / copy 1 over all progeny, switch = the loci (1-based, >= 2) at which some progeny copy
+\* changes its source, dhhet = number of progeny whose two copies differ
+BulkVerdict(c) ==
+    IF c.exc # "none" THEN "exception"
+    ELSE IF c.nprog # c.nexp THEN "progeny-count"
+    ELSE IF \E x \in 1..Len(c.tags0) : c.tags0[x] \notin SideTags(c.proto, c.xconfig[1], c.nself, 0) THEN "allele-from-undesignated-parent"
+    ELSE IF \E x \in 1..Len(c.tags1) : c.tags1[x] \notin SideTags(c.proto, c.xconfig[1], c.nself, 1) THEN "allele-from-undesignated-parent"
+    ELSE IF \E x \in 1..Len(c.switch) : c.xo[c.switch[x]] = 0 THEN "source-switch-where-crossover-impossible"
+    ELSE IF IsDH(c.proto) /\ c.dhhet # 0 THEN "dh-not-homozygous"
+    ELSE "ok"
+
 TInit == /\ i \in 1..Len(Cases)
          /\ proto = "sx" /\ row = <<>> /\ ns = 0 /\ xo = <<>> /\ stage = "trace" /\ ind = <<>> /\ aux = <<>> /\ left = 0
 TSpec == TInit /\ [][UNCHANGED tvars]_tvars
-Report == PrintT(<<"CASE", Cases[i].id, Verdict(Cases[i])>>)
+Report == PrintT(<<"CASE", Cases[i].id, IF Cases[i].kind = "bulk" THEN BulkVerdict(Cases[i]) ELSE Verdict(Cases[i])>>)
 ==============================================================================
